@@ -294,6 +294,16 @@ def catalogue_c16(tier):
     return cs
 
 
+def catalogue_c06(tier):
+    """C06 across threads: the sibling inputs of a failed attempt are released BEFORE the replacement source of
+    on_error_resume_next is subscribed (a teardown deferred until the nested subscription returns leaves them subscribed meanwhile)"""
+    cs = []
+    for nm, inner in [('zip', T('zip', ins=[S(1), S(2)])), ('merge', T('merge', ins=[S(1), S(2)])), ('combine_latest', T('combine_latest', ins=[S(1), S(2)]))]:
+        root = T('on_error_resume_next', 0, 'slow', ins=[inner])
+        cs.append(case('c06/resume-slow-over-%s/sibling-emits-meanwhile' % nm, root, [[E(1, 'e', 5)], [SL(60), E(2, 'n', 21), SL(400)]], tags=['released-before-resume', 'count']))
+    return cs
+
+
 def catalogue_c14(tier):
     """C14 for the time-driven sources / operators: the same observable value subscribed twice (at different times for the cold
     sources); each subscriber is judged by the timed definition of C16 for its own subscription"""
@@ -371,7 +381,7 @@ def catalogue_c13(tier):
     return cs
 
 
-CATALOGUES = {'C04': catalogue_c04, 'C14': catalogue_c14, 'C07': catalogue_c07, 'C13': catalogue_c13, 'C08': catalogue_c08, 'C09': catalogue_c09, 'C15': catalogue_c15, 'C16': catalogue_c16, 'C18': catalogue_c18, 'C19': catalogue_c19, 'C05': catalogue_c05, 'C11': catalogue_c11, 'C12': catalogue_c12}
+CATALOGUES = {'C04': catalogue_c04, 'C06': catalogue_c06, 'C14': catalogue_c14, 'C07': catalogue_c07, 'C13': catalogue_c13, 'C08': catalogue_c08, 'C09': catalogue_c09, 'C15': catalogue_c15, 'C16': catalogue_c16, 'C18': catalogue_c18, 'C19': catalogue_c19, 'C05': catalogue_c05, 'C11': catalogue_c11, 'C12': catalogue_c12}
 
 
 # ------------------------------------------------------------------------------------------ engine
